@@ -48,7 +48,7 @@ def to_calls(hist):
             continue
         pre = hist[idx - 1] if idx > 0 else None
         if name == "launch":
-            c = {"op": "launch", "gid": a["pids"][0], "pids": a["pids"], "bg": a["bg"], "reports": [], "end": idx,
+            c = {"op": "launch", "gid": a["pids"][0], "pids": a["pids"], "bg": a["bg"], "reports": [], "ridx": [], "end": idx,
                  "modelid": a["id"], "done": a["bg"], "echild": False}
             calls.append(c)
             opened = None if a["bg"] else c
@@ -56,10 +56,16 @@ def to_calls(hist):
             if opened is None:
                 raise ToolError("fgstep outside a foreground wait")
             opened["reports"].append(event_of(pre, a["p"]))
+            opened["ridx"].append(idx)
             opened["end"] = idx
             if a["done"]:
                 opened["done"] = True
                 opened = None
+        elif name == "fgpoll":
+            # the wait's non-blocking poll found nothing pending: the wait ends
+            opened["end"] = idx
+            opened["done"] = True
+            opened = None
         elif name == "fgechild":
             opened["end"] = idx
             opened["done"] = True
@@ -68,7 +74,7 @@ def to_calls(hist):
         elif name == "poll":
             calls.append({"op": "poll", "reports": [event_of(pre, p) for p in sorted(a["R"])], "end": idx, "done": True})
         elif name == "builtin":
-            pending = {"op": a["kind"], "id": a["id"], "pre": [event_of(pre, p) for p in sorted(a["R"])], "reports": [],
+            pending = {"op": a["kind"], "id": a["id"], "pre": [event_of(pre, p) for p in sorted(a["R"])], "reports": [], "ridx": [],
                        "end": idx, "done": False, "echild": False, "pids": []}
         elif name == "resume":
             c = pending
@@ -149,6 +155,17 @@ def judge_walk(hist, calls, res):
                                  "desc": "foreground wait returned status %s, the last process ended with %s" % (r["status"], want)},
                                 drift, stable)
                 if used < len(c["reports"]):
+                    # the wait returned although reports were still queued.  Judged against the kernel's truth at the
+                    # moment of the last report it read: a member it last saw stopped that was running again by then
+                    # (its Continued report was already pending) has neither exited nor is it stopped
+                    if 0 < used <= len(c.get("ridx", [])):
+                        truth = hist[c["ridx"][used - 1]]["kst"]
+                        stale = [p for p in fgp if lastrep[p][1] == 2 and truth[str(p)] == "running"]
+                        if stale:
+                            return ({"kind": "returned-early", "call": ci,
+                                     "desc": "foreground wait returned on a stale stop report: %s had been continued and was running "
+                                             "again, its Continued report was pending (reports consumed: %s, still queued: %s)"
+                                             % (stale, c["reports"][:used], c["reports"][used:])}, drift, stable)
                     # returned on a prefix the property allows; the rest of the walk no longer lines up
                     return (None, drift + 1, stable)
         # (2) table against kernel truth at stable points
@@ -184,7 +201,7 @@ def judge_walk(hist, calls, res):
 
 
 SIMS = {
-    "quick": [("MCJobSim_b", 700, 26), ("MCJobSim_e", 500, 28), ("MCJobSim_d", 500, 36), ("MCJobSim_c", 500, 42)],
+    "quick": [("MCJobSim_b", 2000, 26), ("MCJobSim_e", 1500, 28), ("MCJobSim_d", 1500, 36), ("MCJobSim_c", 1500, 42)],
     "thorough": [("MCJobSim_b", 20000, 26), ("MCJobSim_e", 15000, 28), ("MCJobSim_d", 20000, 36), ("MCJobSim_c", 25000, 42)],
 }
 MCS = {
@@ -204,11 +221,16 @@ def runner(rep, tier, seed, replay):
             rep.violation(v["kind"], v["desc"], c, {"kind": v["kind"]})
         return rep.finish(rule="replay of one recorded behaviour")
     # (M) exhaustive model checking of the repaired design
+    rn = run_tlc("MCJobControl", "MCJobControl_nodrain", coverage=False, timeout=600)
+    if not rn.violation or "ReturnedWhenDue" not in rn.violation:
+        raise ToolError("the 'nodrain' legacy switch (wait_fg_job returning on a stale stop report) is no longer refuted by "
+                        "ReturnedWhenDue: the model lost its teeth")
+    rep.add_tlc(rn)
     for cfg in MCS[tier]:
         r = run_tlc("MCJobControl", cfg, timeout=7200, xmx="24g")
         if r.violation:
             raise ToolError("the JobControl model violates C06 at the design level (%s):\n%s" % (cfg, r.violation[:3000]))
-        check_action_coverage(r, ["Launch", "KStop", "KCont", "KExit", "KKill", "FgStep", "Poll", "Builtin", "Resume"])
+        check_action_coverage(r, ["Launch", "KStop", "KCont", "KExit", "KKill", "FgStep", "FgPollEmpty", "Poll", "Builtin", "Resume"])
         rep.add_tlc(r)
         log("[C06] %s: %d distinct states, %d transitions, %.0fs" % (cfg, r.distinct, r.generated, r.wall))
     # (G)+(A) generated behaviours replayed through the fake kernel
